@@ -1,3 +1,256 @@
-import AkVerif.Model.CHText
+import AkVerif.Lemmas.CHTextEval
+import AkVerif.Lemmas.CHTextEq
+import AkVerif.Lemmas.CHTextFormat
+/-!
+# C08 — colored text behaves exactly like the underlying string
+
+Property theorems only. `Text.cells : Text → List (Char × Colour)` is what a text shows (the
+characters of its chunks, each with the colour of its chunk); the theorems say that every
+operation of `CHText` / `CHText.Chunk` does to the cells what Python's `str` does to the characters
+(`pySlice`, `pyIndex`, `pyJoin`, `pyFixedLen`, `pyPad` are Python's plain-sequence operations),
+that the state invariant survives every operation, and that `==` on invariant-satisfying texts is
+equality of cells. `eval_refines` puts it together for every typed operation tree.
+-/
 namespace C08
+open CHText Ak
+
+/-! ## Python's plain-sequence operations: what the specification functions mean -/
+
+/-- `l[i:j]` is empty outside `lo ≤ k < hi` and has the items of `l` inside, where a negative bound
+counts from the end and every bound is clamped into `[0, len]` (language reference, "Sequence
+types", notes 3 and 4) -/
+theorem pySlice_spec {α} (l : List α) (i j : Option Int) :
+    (∀ k, (pySlice l i j)[k]? =
+        if sliceLo l.length i + k < sliceHi l.length j then l[sliceLo l.length i + k]? else none) ∧
+    (pySlice l i j).length = sliceHi l.length j - sliceLo l.length i ∧
+    sliceLo l.length i ≤ l.length ∧ sliceHi l.length j ≤ l.length :=
+  ⟨pySlice_getElem? l i j, pySlice_length l i j, sliceLo_le _ _, sliceHi_le _ _⟩
+
+/-- the familiar special cases: `l[:]`, `l[:n]`, `l[n:]`, `l[-n:]` -/
+theorem pySlice_cases {α} (l : List α) (n : Nat) :
+    pySlice l none none = l ∧
+    pySlice l none (some (n : Int)) = l.take n ∧
+    pySlice l (some (n : Int)) none = l.drop n ∧
+    (0 < n → pySlice l (some (-(n : Int))) none = l.drop (l.length - n)) :=
+  ⟨pySlice_none_none l, pySlice_none_nat l n, pySlice_nat_none l n, pySlice_neg_none l n⟩
+
+/-- `l[i]` raises (only `IndexError`) exactly for `i ≥ len` or `i < -len`, otherwise it is the item
+counted from the start (`i ≥ 0`) or from the end -/
+theorem pyIndex_spec {α} (l : List α) (i : Int) :
+    ((∃ e, pyIndex l i = .error e) ↔ (i ≥ l.length ∨ i < -(l.length : Int))) ∧
+    (∀ e, pyIndex l i = .error e → e = .indexError) ∧
+    (∀ a, pyIndex l i = .ok a →
+      (0 ≤ i ∧ l[i.toNat]? = some a) ∨ (i < 0 ∧ l[(i + l.length).toNat]? = some a)) :=
+  ⟨pyIndex_error_iff l i, pyIndex_error_eq l i, fun a h => by
+    rcases pyIndex_ok l i a h with h | h
+    · exact Or.inl h
+    · exact Or.inr ⟨h.1, h.2.2⟩⟩
+
+/-! ## the invariant -/
+
+/-- The invariant (no empty chunk, neighbouring chunks differ in colour, cached length = number of
+visible characters) holds for the empty text and is preserved by every operation: `_append_chunk`,
+`+=` with any operand, the constructor, `+`, reflected `+`, `join`, slicing, indexing,
+`fixed_len` -/
+theorem canon :
+    Canon Text.empty ∧
+    (∀ (t : Text) c, Canon t → Canon (appendChunk t c)) ∧
+    (∀ (t : Text) p, Canon t → Canon (iadd t p)) ∧
+    (∀ ps, Canon (construct ps)) ∧
+    (∀ (t : Text) o, Canon (t.add o)) ∧
+    (∀ self other, Canon (radd self other)) ∧
+    (∀ sep ps, Canon (Text.join sep ps)) ∧
+    (∀ (t : Text) i j, Canon (t.getSlice i j)) ∧
+    (∀ (t r : Text) i, t.getIndex i = .ok r → Canon r) ∧
+    (∀ (t : Text) n, Canon t → Canon (t.fixedLen n)) ∧
+    (∀ (c : Chunk) n, Canon (c.fixedLen n)) :=
+  ⟨canon_empty, appendChunk_canon, iadd_canon, construct_canon, add_canon,
+    fun _ _ => construct_canon _, join_canon, getSlice_canon, getIndex_canon,
+    fun t n h => fixedLen_canon t h n, fun c n => by
+      unfold Chunk.fixedLen
+      simp only []
+      split
+      · exact construct_canon _
+      · split <;> exact construct_canon _⟩
+
+/-- `len()` of a text satisfying the invariant is the number of visible characters, and
+`plain_text()` (the characters of the cells) has that length -/
+theorem len (t : Text) (h : Canon t) :
+    t.scrlen = t.cells.length ∧ (t.cells.map (·.1)).length = t.scrlen := by
+  have := h.2
+  unfold LenOK at this
+  simp [this]
+
+/-- a list of cells has exactly one chunk list satisfying the invariant (`group` computes it) -/
+theorem canon_repr (cells : Cells) :
+    CanonChunks (group cells) ∧ cellsOf (group cells) = cells ∧
+    ∀ cs, CanonChunks cs → cellsOf cs = cells → cs = group cells :=
+  ⟨group_canon cells, cellsOf_group cells, fun cs h hc => by rw [← hc, group_cellsOf cs h]⟩
+
+/-! ## refinement, one theorem per operation -/
+
+/-- `t += x` (x a str, a chunk, a text, a possibly nested list or tuple of those): the cells of `x`
+are appended, every character with the colour it had -/
+theorem iadd_cells (t : Text) (p : Part) : (iadd t p).cells = t.cells ++ p.cells :=
+  CHText.iadd_cells t p
+
+/-- `CHText(*parts)` shows the parts one after the other -/
+theorem construct_cells (ps : List Part) : (construct ps).cells = (ps.map Part.cells).flatten := by
+  rw [CHText.construct_cells, cellsList_eq]
+
+/-- `a + b` and the reflected `other + self` -/
+theorem add_cells (t : Text) (o self other : Part) :
+    (t.add o).cells = t.cells ++ o.cells ∧ (radd self other).cells = other.cells ++ self.cells :=
+  ⟨CHText.add_cells t o, radd_cells self other⟩
+
+/-- `sep.join(items)` is `str.join` on the cells -/
+theorem join_cells (sep : Text) (ps : List Part) :
+    (sep.join ps).cells = pyJoin sep.cells (ps.map Part.cells) :=
+  CHText.join_cells sep ps
+
+/-- `text[i:j]` is `str` slicing on the cells: `None`, positive, negative, out-of-range bounds -/
+theorem slice_cells (t : Text) (h : Canon t) (i j : Option Int) :
+    (t.getSlice i j).cells = pySlice t.cells i j :=
+  getSlice_cells t h.2 i j
+
+/-- `text[i]` is `str` indexing on the cells: the one cell, or `IndexError` in exactly the cases in
+which `str` raises it -/
+theorem index_cells (t : Text) (h : Canon t) (i : Int) :
+    (t.getIndex i).map Text.cells = (pyIndex t.cells i).map (fun x => [x]) ∧
+    ((∃ e, t.getIndex i = .error e) ↔ (i ≥ t.cells.length ∨ i < -(t.cells.length : Int))) ∧
+    (∀ e, t.getIndex i = .error e → e = .indexError) := by
+  have hs := getIndex_spec t h.2 i
+  refine ⟨?_, ?_, ?_⟩
+  · rw [hs]; cases pyIndex t.cells i <;> simp [Except.map, cellText_cells]
+  · rw [← pyIndex_error_iff, hs]
+    cases pyIndex t.cells i <;> simp [Except.map]
+  · intro e he
+    rw [hs] at he
+    cases hp : pyIndex t.cells i with
+    | ok x => rw [hp] at he; cases he
+    | error e' => rw [hp] at he; cases he; exact pyIndex_error_eq _ _ _ hp
+
+/-- `text.fixed_len(n)`: for `n ≥ 0` the first `n` cells, padded with default-coloured spaces
+(`s[:n].ljust(n)`) -/
+theorem fixedLen_cells (t : Text) (h : Canon t) (n : Nat) :
+    (t.fixedLen n).cells = t.cells.take n ++ plainCells (spaces (n - t.cells.length)) := by
+  rw [CHText.fixedLen_cells t h.2, pyFixedLen_nat]
+
+/-- the chunk versions (`Chunk.__getitem__`, `Chunk.fixed_len`) -/
+theorem chunk_ops_cells (c : Chunk) (i : Int) (j k : Option Int) (n : Nat) :
+    (c.getIndex i).map Chunk.cells = (pyIndex c.cells i).map (fun x => [x]) ∧
+    (c.getSlice j k).cells = pySlice c.cells j k ∧
+    (c.fixedLen n).cells = c.cells.take n ++ plainCells (spaces (n - c.cells.length)) := by
+  refine ⟨chunk_getIndex_spec c i, chunk_getSlice_cells c j k, ?_⟩
+  rw [chunk_fixedLen_cells, pyFixedLen_nat]
+
+/-- `format(text, spec)` for every spec `[[fill]align][width][s]` (width without leading zero): the
+cells of the text padded as Python pads a `str`, pads in the default colour -/
+theorem format_cells (t : Text) (h : Canon t) (sp : FmtSpec) (hv : sp.Valid) :
+    t.format sp.render = .ok (pyPad (sp.fill, 0) sp.align sp.widthVal t.cells) :=
+  CHText.format_cells t h.2 sp hv
+
+/-- … hence the visible text of `format(text, spec)` is `format(plain_text, spec)` -/
+theorem format_plain (t : Text) (h : Canon t) (sp : FmtSpec) (hv : sp.Valid) :
+    (t.format sp.render).map (fun cells => cells.map (·.1)) =
+      .ok (pyFormatStr (t.cells.map (·.1)) sp) := by
+  rw [format_cells t h sp hv]
+  simp only [Except.map, pyFormatStr, pyPad_map]
+
+/-! ## equality -/
+
+/-- two texts satisfying the invariant compare equal iff they show the same characters in the
+same colours — however they were assembled -/
+theorem eq_iff (a b : Text) (ha : Canon a) (hb : Canon b) : eqText a b = true ↔ a.cells = b.cells :=
+  eqText_iff a b ha hb
+
+/-- a text equals a plain string iff it shows exactly that string in the default colour -/
+theorem eq_str_iff (t : Text) (h : Canon t) (s : List Char) : eqStr t s = true ↔ t.cells = plainCells s :=
+  eqStr_iff t h s
+
+/-- a text equals a chunk iff they show the same cells (an empty chunk of any colour equals the
+empty text) -/
+theorem eq_chunk_iff (t : Text) (h : Canon t) (c : Chunk) : eqChunk t c = true ↔ t.cells = c.cells :=
+  eqChunk_iff t h c
+
+/-- chunk against chunk / str, outside the stated exception (both sides empty) -/
+theorem chunk_eq_iff (c d : Chunk) (s : List Char) :
+    ((c.text ≠ [] ∨ d.text ≠ []) → ((c == d) = true ↔ c.cells = d.cells)) ∧
+    ((c.text ≠ [] ∨ s ≠ []) → (c.eqStr s = true ↔ c.cells = plainCells s)) :=
+  ⟨fun h => by rw [beq_iff_eq]; exact CHText.chunk_eq_iff c d h, chunk_eqStr_iff c s⟩
+
+/-! ## all operation trees -/
+
+/-- For every operation tree of the modelled fragment (`e.ty = some τ`: constructor, `+`, `+=`,
+reflected `+` with str / list / tuple, `join`, `[i]`, `[i:j]`, `fixed_len` over strings, chunks,
+texts, nested lists and tuples, to any depth): either the model evaluates it to a value of type `τ`
+in which every text satisfies the invariant and which shows exactly the cells that the same
+operations give on plain sequences (`ref`), or both raise `IndexError`; never anything else. -/
+theorem eval_refines (e : Expr) (τ : Ty) (h : e.ty = some τ) :
+    (∃ p c, eval e = .ok p ∧ ref e = .ok c ∧ p.ty = τ ∧ p.Canon ∧ p.cells = c) ∨
+    (eval e = .error (.py .indexError) ∧ ref e = .error .indexError) := by
+  rcases (eval_sim e τ h).inv with hok | ⟨err, h1, h2⟩
+  · exact Or.inl hok
+  · have := ref_error e err h2
+    subst this
+    exact Or.inr ⟨h1, h2⟩
+
+/-- in particular every text reachable by public operations satisfies the invariant and `len()`
+is the number of characters shown -/
+theorem reachable_canon (e : Expr) (τ : Ty) (h : e.ty = some τ) (t : Text) (he : eval e = .ok (.text t)) :
+    Canon t ∧ t.scrlen = t.cells.length := by
+  rcases eval_refines e τ h with ⟨p, c, h1, _, _, hc, _⟩ | ⟨h1, _⟩
+  · rw [he] at h1; cases h1; exact ⟨hc, hc.2⟩
+  · rw [he] at h1; cases h1
+
+/-- `format` and `==` of reachable values: the two remaining observations of an operation tree -/
+theorem eval_observe (a b : Expr) (τa τb : Ty) (ha : a.ty = some τa) (hb : b.ty = some τb)
+    (ta tb : Text) (hea : eval a = .ok (.text ta)) (heb : eval b = .ok (.text tb))
+    (ca cb : Cells) (hra : ref a = .ok ca) (hrb : ref b = .ok cb) (sp : FmtSpec) (hv : sp.Valid) :
+    (pyEq (.text ta) (.text tb) = .ok true ↔ ca = cb) ∧
+    pyFormat (.text ta) sp.render = .ok (pyPad (sp.fill, 0) sp.align sp.widthVal ca) := by
+  have h1 := eval_sim a τa ha
+  have h2 := eval_sim b τb hb
+  rw [hea, hra] at h1
+  rw [heb, hrb] at h2
+  obtain ⟨_, hca, hcella⟩ := h1
+  obtain ⟨_, hcb, hcellb⟩ := h2
+  refine ⟨?_, ?_⟩
+  · simp only [pyEq, Except.ok.injEq]
+    rw [eqText_iff ta tb hca hcb]
+    rw [← hcella, ← hcellb]; rfl
+  · simp only [pyFormat]
+    rw [CHText.format_cells ta hca.2 sp hv, ← hcella]; rfl
+
+/-! ## non-vacuity: concrete trees evaluated by the kernel -/
+
+/-- `(RED("ab") + "c")[-2:]` shows `b` in red and `c` in the default colour -/
+example : (eval (.slice (.add (.chunk 1 "ab".toList) (.str "c".toList)) (some (-2)) none)).map Part.cells
+    = .ok [('b', 1), ('c', 0)] := by decide +kernel
+example : (Expr.slice (.add (.chunk 1 "ab".toList) (.str "c".toList)) (some (-2)) none).ty = some .text := by
+  decide +kernel
+/-- merging: `CHText(RED("a"), [RED("b"), ""], "c", "d")` has two chunks and length 4 -/
+example : construct [.chunk ⟨1, ['a']⟩, .list false [.chunk ⟨1, ['b']⟩, .str []], .str ['c'], .str ['d']]
+    = ⟨4, [⟨1, ['a', 'b']⟩, ⟨0, ['c', 'd']⟩]⟩ := by decide +kernel
+example : Canon (construct [.chunk ⟨1, ['a']⟩, .chunk ⟨1, ['b']⟩, .str ['c']]) := by decide +kernel
+/-- the invariant is not trivially true: an empty chunk or equal neighbours violate it -/
+example : ¬ Canon ⟨1, [⟨1, ['a']⟩, ⟨0, []⟩]⟩ := by decide +kernel
+example : ¬ Canon ⟨2, [⟨1, ['a']⟩, ⟨1, ['b']⟩]⟩ := by decide +kernel
+/-- … and without it `==` does not follow the cells -/
+example : eqText ⟨2, [⟨1, ['a']⟩, ⟨1, ['b']⟩]⟩ ⟨2, [⟨1, ['a', 'b']⟩]⟩ = false := by decide +kernel
+/-- `IndexError` -/
+example : (eval (.idx (.mk [.str "ab".toList]) 2)).map Part.cells = .error (.py .indexError) := by
+  decide +kernel
+example : (eval (.idx (.mk [.str "ab".toList]) (-2))).map Part.cells = .ok [('a', 0)] := by decide +kernel
+/-- `f"{RED('ab') + 'c':*^7}"` -/
+example : (FmtSpec.mk (some (some '*', .center)) ['7'] false).Valid := by
+  refine ⟨?_, by decide⟩
+  intro c hc
+  simp only [List.mem_singleton] at hc
+  subst hc
+  decide
+example : (FmtSpec.mk (some (some '*', .center)) ['7'] false).render = "*^7".toList := by decide +kernel
+example : (construct [.chunk ⟨1, ['a', 'b']⟩, .str ['c']]).format "*^7".toList
+    = .ok [('*', 0), ('*', 0), ('a', 1), ('b', 1), ('c', 0), ('*', 0), ('*', 0)] := by decide +kernel
+
 end C08
